@@ -93,6 +93,11 @@ func c10GenWorld(r *core.Rng) *c10World {
 		// bystanders next to the outputs
 		p.Aux[c10OutDir(q.Dir)+"/notes.txt"] = "user notes, not to be touched\n"
 		p.Aux[c10OutDir(q.Dir)+"/mocks.go~"] = "editor backup\n"
+		// neighbours with the names a careless "write to a temporary sibling, then rename" would pick
+		for _, suf := range []string{".tmp", ".bak", ".orig", ".new", ".swp"} {
+			p.Aux[c10OutDir(q.Dir)+"/mocks.go"+suf] = "a user's file that merely looks like a temporary sibling of the output (" + suf + ")\n"
+		}
+		p.Aux[c10OutDir(q.Dir)+"/.mocks.go.tmp"] = "hidden sibling\n"
 		p.Aux[c10OutDir(q.Dir)+"/Mocks_helper.go"] = "package mocks\n\n// user helper\n"
 	}
 	p.Aux["README.md"] = "# project\n"
